@@ -464,6 +464,7 @@ TIE_FILES = {   # tie file -> functions of pyerrors/obs.py it needs regenerated
     "Tie_reduce.v": ["_reduce_deltas"],
     "Tie_reweight.v": ["_reduce_deltas", "reweight_samples"],      # imports Tie_reduce: list that file first
     "Tie_correlate.v": ["correlate_replica"],
+    "Tie_corrpair.v": ["corr_reweight_loop", "corr_correlate_loop"],
     "Tie_gap.v": ["_determine_gap", "gamma_method_w_max"],
     "Tie_kwarg.v": ["_parse_kwarg"],
     "Tie_scalef.v": ["_compute_scalefactor_missing_rep"],
